@@ -6,6 +6,7 @@ Decides one property of vks/average by static analysis of /repo's current source
 replay=<path>`: a rule instance is broken by a specific construct.  See DESIGN.md.
 """
 import json
+import re
 import os
 import sys
 import time
@@ -118,7 +119,8 @@ class Ctx:
         if self.variant:
             key = "%s@cfg-%s" % (key, self.variant)
         st = "inc" if inc else ("ok" if ok else "viol")
-        if st == "viol" and ("<opaque ret:" in detail or "<opaque havoc:" in detail or "?ret:" in detail or "?havoc:" in detail):
+        if st == "viol" and ("<opaque ret:" in detail or "<opaque havoc:" in detail or "?ret:" in detail or "?havoc:" in detail
+                             or re.search(r"\?f~\d|\bopq_f_\d", detail)):
             # the differing value is the result of a call the library model does not cover: undecided, not wrong
             st = "inc"
         o = Ob(rule, key, fn, site, st, detail, d7, nontrivial, sample)
@@ -457,7 +459,8 @@ def main(argv):
     for o in viol:
         hit = None
         for k in known:
-            if k["rule"] == o.rule and _fn_key(k["fn"]) == _fn_key(o.fn) and k["key"] == o.key:
+            # the same construct seen again in the re-analysis under another feature configuration (R-CFG) is the same finding
+            if k["rule"] == o.rule and _fn_key(k["fn"]) == _fn_key(o.fn) and k["key"] == re.sub(r"@cfg-[A-Z]$", "", o.key):
                 hit = k
         (known_hit if hit else new_viol).append((o, hit))
 
